@@ -413,7 +413,18 @@ def run(chk, repo, tier):
                 continue
             n_paths += 1
             if calls[0] != 'plane._can_mul_ptype' and calls[0] not in helpers:       # any of the plane-type helpers of plane.py
-                first_bad.append(f'{calls[0]} runs before the plane-type test [{p.status}]')
+                # the test may be written in place (a look-up in the table and a membership test): then it is the first
+                # condition of the path that reads the plane types, and it has to stand above the first other call
+                def line(n_):
+                    return getattr(n_, 'lineno', None)
+                tests = [line(nd) for c, pol, nd in p.conds if isinstance(c, Poly) and
+                         any((a[0] == 'attr' and a[2] in ('ptype', '_ptype')) or (a[0] == 'sym' and 'ptype' in str(a[1]))
+                             for a in nf.value_atoms(c))]
+                first_call = next((line(e.node) for e in p.events if e.kind == 'call' and e.depth == 0
+                                   and str(e.data.get('callee', '')) == calls[0]), None)
+                tests = [t for t in tests if t is not None]
+                if not (tests and first_call is not None and min(tests) < first_call):
+                    first_bad.append(f'{calls[0]} runs before the plane-type test [{p.status}]')
         chk.ob('C08-g', 'D-dominance', key, 'the plane-type test precedes every other step that can refuse', not first_bad and n_paths > 0,
                '; '.join(sorted(set(first_bad))[:3]) or f'{n_paths} path(s): _can_mul_ptype is the first call', f.loc())
 
